@@ -54,6 +54,7 @@ JudgeCall(e) ==
                     IF fb = {"F-panic"} /\ k \in {8, 9, 10, 12} /\ DevInner \in KnownDeviations /\ post.regs = [pre.regs EXCEPT ![8] = OOB]
                        /\ post.diff = <<>> /\ post.ctx = pre.ctx /\ ~post.ychg THEN {"DEV:" \o DevInner}
                     ELSE fb \cup (IF exact /\ fb = {} /\ ~ok THEN {"X-outcome:" \o ToString(k)} ELSE {})
+                            \cup (IF k = 1 /\ "aux" \in DOMAIN pre /\ ~ConstsOK(pre.aux.consts) THEN {"X-consts"} ELSE {})
                [] Mode = "c08" ->
                     (IF e.gopanic # "" THEN {"F-exit"} ELSE {})
                     \cup (IF ~Conserves(pre.ctx, post.ctx) THEN {"Conservation"} ELSE {})
